@@ -26,7 +26,7 @@
 EXTENDS Naturals, Sequences, FiniteSets, TLC
 
 Kinds == {"schema", "parameter", "header", "response", "requestBody", "pathItem", "example", "securityScheme"}
-Shapes == {"chain", "cross", "cycle", "deep", "diamond"}
+Shapes == {"chain", "cross", "cycle", "deep", "diamond", "sibling", "mapping"}
 
 \* outcome of parsing the referencing document:
 \*   "ok" | "err_recursion" | "err_depth" | "err_other" | "panic"
@@ -39,7 +39,7 @@ Allowed(c) ==
     [] OTHER -> {"ok"}
 \* when parsing succeeds and the graph is acyclic, every referrer must see what the
 \* inlined document gives (T1) and the expanded document must parse back to it (T4)
-NeedsEqual(c) == c.shape \in {"chain", "cross", "deep", "diamond", "sibling"}
+NeedsEqual(c) == c.shape \in {"chain", "cross", "deep", "diamond", "sibling", "mapping"}
 \* Dev_RefSiblingWrittenIntoTarget: jsonschema.Parser.parse1 applies default / enum /
 \* discriminator / x-ogen-* written beside a $ref to the schema the resolver returned, which
 \* is the cached, shared target: the other referrers (and the component) see them too
